@@ -6,6 +6,7 @@ from the working tree (/venv has an editable install of /repo).
 import json
 import os
 import signal
+import time
 import sqlite3
 import sys
 import warnings
@@ -25,7 +26,12 @@ from placement.objects import trait, resource_class
 ADMIN = 'admin'
 
 
+# CPU seconds (user + system time of this process, ITIMER_PROF), not wall-clock seconds: a request that does not
+# terminate burns CPU, and a deadline in wall-clock time fires spuriously when the machine is overloaded (seen with
+# load 50 on 16 cores: requests abandoned at random, schedules no longer reproducible).  A request that SLEEPS forever
+# is left to the watchdog of harness/run.py.
 REQUEST_TIMEOUT_S = float(os.environ.get('VERIF_REQUEST_TIMEOUT', '6'))
+_TIMER, _SIGNAL = signal.ITIMER_PROF, signal.SIGPROF
 HANGS = [0]      # requests abandoned in this process; checks stop generating new cases once a few were seen
 
 
@@ -33,8 +39,8 @@ class RequestHang(BaseException):
     """raised by the alarm; a BaseException so that no `except Exception` of the service swallows it"""
 
 
-_ACTIVE = [0]       # requests in flight in this process (several under the greenlet scheduler)
-_OWNERS = []        # the greenlets (or None without greenlets) executing them
+_OWNERS = {}        # greenlet executing a request (several under the transaction scheduler) -> CPU seconds it has used
+_LAST = [0.0]       # process CPU time at the last greenlet switch / request start
 
 try:
     import greenlet as _greenlet
@@ -46,37 +52,51 @@ def _current():
     return _greenlet.getcurrent() if _greenlet is not None else None
 
 
+def _account(cur):
+    now = time.process_time()
+    if cur in _OWNERS:
+        _OWNERS[cur] += now - _LAST[0]
+    _LAST[0] = now
+
+
+def _on_switch(event, args):
+    # CPU time is charged to the request whose greenlet was running
+    if event in ('switch', 'throw'):
+        _account(args[0])
+
+
 def _on_alarm(signum, frame):
-    # raise only inside code that executes a request (the greenlet that is running and does not terminate), never
-    # in the scheduler while all requests are suspended at a transaction boundary
-    if _ACTIVE[0] > 0 and _current() in _OWNERS:
+    # raise only inside code that executes a request, and only when THAT request has used up its allowance (the
+    # timer is shared by all requests in flight and CPU time is charged to the greenlet that ran); never in the
+    # scheduler while all requests are suspended at a transaction boundary
+    cur = _current()
+    used = _OWNERS.get(cur)
+    if used is not None and used + (time.process_time() - _LAST[0]) >= REQUEST_TIMEOUT_S:
         raise RequestHang()
 
 
 def _arm(seconds):
     """start the deadline of one request.  The timer repeats: should the exception be swallowed by some
     `except BaseException` / `__del__` on its way out (it is raised at an arbitrary point), the next tick raises it
-    again.  Under the transaction scheduler several requests are in flight in one process: the timer is shared and
-    restarted whenever a request starts or ends, and is stopped only when none is left."""
+    again.  Under the transaction scheduler several requests are in flight in one process: the timer is shared, runs
+    while any request is in flight and is stopped when none is left."""
     try:
-        signal.signal(signal.SIGALRM, _on_alarm)
+        signal.signal(_SIGNAL, _on_alarm)
     except ValueError:          # not in the main thread: no deadline
         return
-    _ACTIVE[0] += 1
-    _OWNERS.append(_current())
-    signal.setitimer(signal.ITIMER_REAL, seconds, 0.5)
+    cur = _current()
+    _account(cur)
+    _OWNERS[cur] = 0.0
+    if _greenlet is not None and _greenlet.gettrace() is None:
+        _greenlet.settrace(_on_switch)
+    signal.setitimer(_TIMER, 0.5, 0.5)
 
 
 def _disarm():
-    _ACTIVE[0] = max(0, _ACTIVE[0] - 1)
-    cur = _current()
-    if cur in _OWNERS:
-        _OWNERS.remove(cur)
+    _OWNERS.pop(_current(), None)          # first: from here on the handler does not raise for this request
     try:
-        if _ACTIVE[0] == 0:
-            signal.setitimer(signal.ITIMER_REAL, 0)
-        else:
-            signal.setitimer(signal.ITIMER_REAL, REQUEST_TIMEOUT_S, 0.5)
+        if not _OWNERS:
+            signal.setitimer(_TIMER, 0)
     except ValueError:
         pass
 
